@@ -293,7 +293,8 @@ pub fn minimise(replay: &Value, class: &str, scratch: &Path, budget: Duration) -
         }
         true
     }
-    let need_warm = warm(&cur);
+    // (finding D26 was repaired: the minimiser may remove the warm-up like anything else)
+    let need_warm = false && warm(&cur);
     let guards: Vec<String> = replay.get("guards").and_then(|g| serde_json::from_value(g.clone()).ok()).unwrap_or_default();
     let is_sql = replay.get("engine").and_then(|e| e.as_str()).map(|e| e.starts_with("E1") || e.starts_with("E2")).unwrap_or(false);
     let trips_guard = |evs: &Vec<Value>| -> bool {
